@@ -35,3 +35,56 @@ Fixpoint first_bad (d : bdb) (i : nat) (tr : list (op bool * (res unit * list sn
       let '(d1, r) := bstep d o in
       if out_eqb r out && list_eqb snap_node_eqb (snapshot d1) snap then first_bad d1 (S i) rest else Some i
   end.
+
+(* ================================================================ extended traces: queries, operations through
+   identifiers, and re-resolution of every identifier issued so far after every operation *)
+Definition bxstep := xstep bool (fun _ => true).
+Definition snap_answer := (list pystr * list snap_node)%type.
+Definition answer_snap (a : answer bool) : snap_answer := (fst a, snapshot (snd a)).
+Definition snap_answer_eqb (a b : snap_answer) : bool :=
+  list_eqb str_eqb (fst a) (fst b) && list_eqb snap_node_eqb (snd a) (snd b).
+Definition res_map {A B} (f : A -> B) (r : res A) : res B :=
+  match r with Ok a => Ok (f a) | Err e => Err e | Unmodelled => Unmodelled end.
+
+(* what the implementation says about one identifier: decrypt_branch_id(id), and the stored node sm[id] *)
+Definition rvec := (res (list pystr) * res (list snap_node))%type.
+Definition model_rvec (d : bdb) (plain : pystr) : rvec :=
+  (sid_path plain, res_map (fun kn => snapshot [kn]) (resolve bool plain d)).
+Definition rvec_eqb (a b : rvec) : bool :=
+  res_eqb (list_eqb str_eqb) (fst a) (fst b) && res_eqb (list_eqb snap_node_eqb) (snd a) (snd b).
+Fixpoint forall2b {A B} (f : A -> B -> bool) (x : list A) (y : list B) : bool :=
+  match x, y with
+  | [], [] => true
+  | a :: x', b :: y' => f a b && forall2b f x' y'
+  | _, _ => false
+  end.
+Definition resolution_ok (d : bdb) (ids : list pystr) (v : list rvec) : bool :=
+  forall2b (fun plain r => rvec_eqb (model_rvec d plain) r) (firstn (length v) ids) v.
+
+Definition xstep_rec := (xop bool * (res snap_answer * list snap_node * list rvec))%type.
+Definition xstep_ok (ids : list pystr) (d : bdb) (s : xstep_rec) : bdb * bool :=
+  let '(x, (out, snap, rv)) := s in
+  let '(d1, r) := bxstep d x in
+  (d1, res_eqb snap_answer_eqb (res_map answer_snap r) out && list_eqb snap_node_eqb (snapshot d1) snap
+       && resolution_ok d1 ids rv).
+Fixpoint check_xtrace (ids : list pystr) (d : bdb) (tr : list xstep_rec) : bool :=
+  match tr with
+  | [] => true
+  | s :: rest => let '(d1, ok) := xstep_ok ids d s in ok && check_xtrace ids d1 rest
+  end.
+(* a case: the plaintexts of the identifiers in the order they were issued, and the steps *)
+Definition chk_xtrace (c : list pystr * list xstep_rec) : bool := check_xtrace (fst c) [] (snd c).
+
+(* diagnostics only: index of the first step at which model and implementation differ, and what the model says *)
+Fixpoint first_bad_x (ids : list pystr) (d : bdb) (i : nat) (tr : list xstep_rec)
+  : option (nat * (res snap_answer * list snap_node * list rvec)) :=
+  match tr with
+  | [] => None
+  | s :: rest =>
+      let '(d1, ok) := xstep_ok ids d s in
+      if ok then first_bad_x ids d1 (S i) rest
+      else let '(x, (_, _, rv)) := s in
+           Some (i, (res_map answer_snap (snd (bxstep d x)), snapshot d1,
+                     List.map (model_rvec d1) (firstn (length rv) ids)))
+  end.
+Definition xdiag (c : list pystr * list xstep_rec) := first_bad_x (fst c) [] O (snd c).
